@@ -23,6 +23,7 @@ silently truncating when the writer is too small.
    writer. Proofs are in Lemmas/WritersA.lean.
 -/
 import SimpleDnsModel.Lemmas.WritersA
+set_option autoImplicit false
 namespace Dns
 
 /-! ### 1. framing -/
@@ -194,22 +195,22 @@ example : (do
     let b ← c04Packet.buildCompressed
     pure (a.length, b.length)) = Out.ok (65, 55) := by decide
 
-def zeros (n : Nat) : Bytes := List.replicate n 0
+def c04Zeros (n : Nat) : Bytes := List.replicate n 0
 
 /-- all four writer kinds, plain path, exact capacity for the fixed ones -/
 example : ∀ k ∈ [WKind.vec, .cursorVec, .cursorFixed, .slice],
-    (c04Packet.writeTo { kind := k, buf := zeros 65, pos := 0 }).isOk = true := by decide
+    (c04Packet.writeTo { kind := k, buf := c04Zeros 65, pos := 0 }).isOk = true := by decide
 
 /-- one byte less: an error -/
-example : c04Packet.writeTo { kind := .cursorFixed, buf := zeros 64, pos := 0 } = .err ∧
-    c04Packet.writeTo { kind := .slice, buf := zeros 64, pos := 0 } = .err := by decide
+example : c04Packet.writeTo { kind := .cursorFixed, buf := c04Zeros 64, pos := 0 } = .err ∧
+    c04Packet.writeTo { kind := .slice, buf := c04Zeros 64, pos := 0 } = .err := by decide
 
 /-- compressed path into a fixed cursor of exactly 55 bytes: the bytes of
 `build_bytes_vec_compressed` -/
-example : (c04Packet.writeCompressedTo { kind := .cursorFixed, buf := zeros 55, pos := 0 }).bind
+example : (c04Packet.writeCompressedTo { kind := .cursorFixed, buf := c04Zeros 55, pos := 0 }).bind
       (fun w => .ok w.buf) = c04Packet.buildCompressed := by decide
 
-example : c04Packet.writeCompressedTo { kind := .cursorFixed, buf := zeros 54, pos := 0 } = .err := by
+example : c04Packet.writeCompressedTo { kind := .cursorFixed, buf := c04Zeros 54, pos := 0 } = .err := by
   decide
 
 /-- a cursor starting at offset 2 over storage pre-filled with 0xAA: the two bytes before the
